@@ -31,7 +31,7 @@ type reloadCase struct {
 	Ops []reloadOp `json:"ops"`
 }
 
-var backAddr = map[string]string{"b1": "10.1.0.1", "b2": "10.1.0.2", "b3": "10.1.0.3", "b4": "10.1.0.4"}
+var backAddr = map[string]string{"b1": "10.1.0.1", "b2": "10.1.0.2", "b3": "fd00::3", "b4": "10.1.0.4"}
 
 func writeConfs(dir string, conf [][]string, ver int, zero ...[]string) (string, string, error) {
 	gslb := map[string]map[string]int{}
